@@ -23,7 +23,7 @@ for name in sys.argv[1:]:
     if out: cmd = cmd.replace(out, work)
     if wt: cmd = cmd.replace(wt, M)
     def tests():
-        r = sh("/tmp/seed/run_tests.sh %s" % M, timeout=3600); return (r.stdout.strip().splitlines() or ["?"])[-1]
+        r = sh("/verif/tools/seed_run_tests.sh %s" % M, timeout=3600); return (r.stdout.strip().splitlines() or ["?"])[-1]
     def demo():
         r = sh(cmd, cwd=work, timeout=1800); o = r.stdout + r.stderr
         return "VIOLATED" if "PROPERTY VIOLATED" in o else "HOLDS" if "PROPERTY HOLDS" in o else "??? " + o[-200:]
